@@ -149,7 +149,7 @@ theorem runFile_res : ∀ fuel s prio cur now ticks,
   | zero => intro s prio cur now ticks; exact Quiet0.refl s
   | succ n ih =>
     intro s prio cur now ticks
-    have key : ∀ (s1 : State) (cur1 : Option Cur), Quiet0 s s1 →
+    have key : ∀ (fr : Bool) (s1 : State) (cur1 : Option Cur), Quiet0 s s1 →
         let r := (if !s1.fdtQueue.isEmpty then (s1, cur1, Out.none) else
           match cur1 with
           | none => (s1, none, Out.none)
@@ -159,10 +159,14 @@ theorem runFile_res : ∀ fuel s prio cur now ticks,
             | some f =>
               if gateBlocked f now then (s1, cur1, Out.none) else
               match encRead f.nSym c.enc (canStop f && !s1.files.contains c.key) with
-              | (none, _) => runFile n (transferDoneFile s1 c.key now) prio none now ticks
+              | (none, _) =>
+
+                if fr then (transferDoneFile s1 c.key now, none, Out.none)
+
+                else runFile n (transferDoneFile s1 c.key now) prio none now ticks
               | (some (idx, b), e) => (pktStep s1 prio c.key now idx b, some { c with enc := e }, Out.pkt prio c.key idx b))
         Res s r.1 now r.2.2 := by
-      intro s1 cur1 h1
+      intro fr s1 cur1 h1
       simp only []
       split
       · exact h1
@@ -175,19 +179,30 @@ theorem runFile_res : ∀ fuel s prio cur now ticks,
           · split
             · exact h1
             · split
-              · exact Res.after (h1.trans (quiet_done s1 c.key now)) (ih _ prio none now ticks)
+              · cases fr with
+                | true => simp only [if_true]; exact h1.trans (quiet_done s1 c.key now)
+                | false =>
+                  simp only [Bool.false_eq_true, if_false]
+                  exact Res.after (h1.trans (quiet_done s1 c.key now)) (ih _ prio none now ticks)
               · exact h1.emit ⟨[], rfl, rfl⟩
     unfold runFile
     cases cur with
-    | some c => exact key s (some c) (Quiet0.refl s)
+    | some c => exact key false s (some c) (Quiet0.refl s)
     | none =>
       simp only []
       cases hg : getNextFile s prio now ticks with
       | mk s' r =>
         have hq := quiet_getNextFile hg
         cases r with
-        | none => exact key s' none hq
-        | some t => exact key s' (some (startCur s' t)) hq
+        | none => exact key true s' none hq
+        | some t =>
+          simp only []
+          cases ho : openFailed true s' (some (startCur s' t)) with
+          | none => exact key true s' (some (startCur s' t)) hq
+          | some kf =>
+            obtain ⟨k', f'⟩ := kf
+            simp only []
+            exact hq.trans (quiet_done s' k' now)
 
 theorem readQueue_res : ∀ k s q now ticks,
     Res s (readQueue k s q now ticks).1 now (readQueue k s q now ticks).2.2 := by
